@@ -73,7 +73,7 @@ def run(ctx: Ctx) -> None:
             ctx.violation(f"C08:{name}:functional:{what}", f"module differs from the unit-scaled function with its own parameters "
                           f"and configured options ({what})", key)
 
-    def versus_twin(name: str, key: Dict[str, Any], m: nn.Module, twin: nn.Module, x: torch.Tensor) -> None:
+    def versus_twin(name: str, key: Dict[str, Any], m: nn.Module, twin: nn.Module, x: torch.Tensor, tol: float = 1e-9) -> None:
         """same parameters; output and every gradient must be a positive scalar multiple, same output shape"""
         twin.load_state_dict(m.state_dict())
         twin.train(m.training)
@@ -90,14 +90,14 @@ def run(ctx: Ctx) -> None:
                           [list(a[0].shape), list(b[0].shape)])
             return
         s, res = ops.fit(a[0], b[0])
-        if not (res <= 1e-9 and s > 0) and not math.isnan(s):
+        if not (res <= tol and s > 0) and not math.isnan(s):
             ctx.violation(f"C08:{name}:twin:output", "output is not a positive scalar multiple of the torch.nn module's", key,
                           {"scalar": s, "resid": res})
         for u, v in zip(a[1], b[1]):
             if u is None or v is None:
                 continue
             s, res = ops.fit(u, v)
-            if not math.isnan(s) and not (res <= 1e-9 and s > 0):
+            if not math.isnan(s) and not (res <= tol and s > 0):
                 ctx.violation(f"C08:{name}:twin:gradient", "a gradient is not a positive scalar multiple of the torch.nn module's", key,
                               {"scalar": s, "resid": res})
                 break
@@ -259,6 +259,12 @@ def run(ctx: Ctx) -> None:
                     m = randomise(uu.RMSNorm(ns if len(ns) > 1 else ns[0], eps=eps, elementwise_affine=affine))
                     x = torch.randn((4,) + ns, dtype=dt)
                     versus_functional("RMSNorm", key, m, x, lambda z: U.rms_norm(z, normalized_shape=tuple(ns), weight=m.weight, eps=eps))
+                    if hasattr(nn, "RMSNorm"):
+                        # same-named torch module, also on small-magnitude inputs (where eps matters); the library computes
+                        # the rms in float32, hence the looser residual
+                        for xs_ in (x, x * 1e-2):
+                            versus_twin("RMSNorm", {**key, "input_scale": float(xs_.abs().max())}, m,
+                                        nn.RMSNorm(list(ns), eps=eps, elementwise_affine=affine).to(dt), xs_, tol=2e-5)
                     check_tags("RMSNorm", key, m, {"weight": "norm"})
         check_init("LayerNorm", {"module": "LayerNorm", "fresh": True}, lambda: uu.LayerNorm(8, elementwise_affine=True))
         check_init("RMSNorm", {"module": "RMSNorm", "fresh": True}, lambda: uu.RMSNorm(8, elementwise_affine=True))
